@@ -69,7 +69,27 @@ func (this *zzCanaryGate) Process() {
 	}
 }
 `, Expect: []core.CanaryExpect{{Rule: "C07.gates", Sub: "zzCanaryGate"}, {Rule: "C07.textnum", Sub: "zzCanaryGate"},
-		{Rule: "C07.clear", Sub: "zzCanaryGate"}, {Rule: "C07.mask", Sub: "zzCanaryGate"}}}}
+		{Rule: "C07.clear", Sub: "zzCanaryGate"}, {Rule: "C07.mask", Sub: "zzCanaryGate"}}},
+		{RelDir: "lang/pack/udp", Name: "c07tail", Src: `package udp
+
+import "github.com/whatap/golib/io"
+
+type zzCanaryUdpTail struct{ a, b int32 }
+
+// optional tail decided by what is left in the datagram buffer
+func (this *zzCanaryUdpTail) Write(o *io.DataOutputX) {
+	o.WriteInt(this.a)
+	if this.b != 0 {
+		o.WriteInt(this.b)
+	}
+}
+func (this *zzCanaryUdpTail) Read(in *io.DataInputX) {
+	this.a = in.ReadInt()
+	if in.Available() > 0 {
+		this.b = in.ReadInt()
+	}
+}
+`, Expect: []core.CanaryExpect{{Rule: "C07.selfdelim", Sub: "zzCanaryUdpTail"}}}}
 }
 
 func runC07(p *core.Program, r *core.Report) {
@@ -83,6 +103,8 @@ func runC07(p *core.Program, r *core.Report) {
 	r.Rule("C07.registry", "CreatePack case K yields a type whose GetPackType() is K, from the pool ClosePack returns K to; Ver re-assigned; Clear before Put", 18)
 	r.Rule("C07.clear", "Clear() assigns every field of the pooled pack type (own and promoted)", 18)
 	r.Rule("C07.mask", "Process() masks the password key for both separators on the Go and PHP branches whenever Dbc is non-empty", 6)
+	r.Rule("C07.selfdelim", "no UDP pack decoder decides an optional section by what is left on the stream it was handed (several packs travel in one datagram buffer: the bytes left are the next pack's); a section the writer gates on the version is gated on the version by the reader", 0)
+	ownExtentRule(p, r, "C07.selfdelim", "lang/pack/udp", "what follows the pack in the buffer (the next pack, padding) is taken for the optional section: the reader consumes bytes the writer of this pack never wrote")
 	r.Rule("C07.caps", "the fields cut to a maximum length on the wire are the documented ones: no writer introduces a new length cap (a capped field no longer round-trips over the 16-bit length range)", 1)
 	c07Caps(p, r)
 	r.Rule("C07.textnum", "integers carried as text are formatted/parsed with matching helpers (no string(int) conversion, no width change)", 1)
